@@ -130,7 +130,7 @@ class Lits:
             return self.fq(e, depth + 1)
         return None
 
-    def fq2(self, t):
+    def fq2(self, t, depth=0):
         """(real, imag) for Fq2::new(a,b) / Fq2::one() / Fq2::i().scale(c) built from literals."""
         t = strip(t)
         if t[0] == "call":
@@ -151,9 +151,15 @@ class Lits:
         if t[0] == "agg" and t[1] == "crate::fields::fq2::Fq2":
             a, b = self.fq(t[3][0]), self.fq(t[3][1])
             return None if a is None or b is None else (a, b)
+        st = self.repo.static_of(t)
+        if st and depth < 4:
+            # a value computed once and kept in a lazy static: what its initialiser builds
+            sv = self.repo.static_values().get(st)
+            if sv and sv.get("term") is not None:
+                return self.fq2(sv["term"], depth + 1)
         e = expand_call(self.repo, t, small_helper)
-        if e is not None:
-            return self.fq2(e)
+        if e is not None and depth < 6:
+            return self.fq2(e, depth + 1)
         return None
 
 
@@ -332,6 +338,10 @@ def rule_const(prop, repo):
                 other = repo.static_of(svals[nm].get("term") or ("unknown",))
                 if other in svals:
                     val = svals[other]["int"]
+            if val is None and svals[nm].get("term") is not None:
+                # kept as a field element (already in Montgomery form) rather than as the integer: the canonical value its
+                # initialiser builds from literals
+                val = Lits(repo).fq(svals[nm]["term"])
             chk(nm.split("::")[-1], val, alpha[i], "(-2)^(%d(q-1)/12) mod q" % i)
     # any other literal U256 static must be one of the values above (a new, unexplained constant fails closed)
     known_vals = {alpha[i] for i in alpha} | {q, r, pow(2, 512, q), pow(2, 512, r), pow(2, 256, q), pow(2, 256, r)}
@@ -344,7 +354,7 @@ def rule_const(prop, repo):
     wants = {(q - 1) * pow(4, -1, q) % q: "(q-1)/4 = -1·4^-1", (q - 5) * pow(8, -1, q) % q: "(q-5)/8 = -5·8^-1"}
     ncomp = 0
     for nm, sv in sorted(svals.items()):
-        if sv["int"] is not None or not nm.startswith("crate::fields"):
+        if sv["int"] is not None or not nm.startswith("crate::fields") or nm in named:
             continue
         got = L.fq(sv["term"])
         if got is None:
